@@ -60,6 +60,43 @@ Theorem C41_domain_size :
 Proof. exact domain_size. Qed.
 Print Assumptions C41_domain_size.
 
+(* ---------------------------------------------------------------- unicode -> bytes, whole strings *)
+
+(* Codepage._split_unicode, for EVERY (NFC-normal) string and every shipped page: the `while ucs` loop ends
+   (never OutOfFuel), the clusters concatenate back to the string, none is empty *)
+Theorem C41_split_unicode_concat : forall t, In t all_codepages -> forall ucs,
+  exists cls, split_unicode t ucs = Ok cls /\ concat cls = ucs /\ Forall (fun c => c <> []) cls.
+Proof. intros t Ht ucs. exact (split_unicode_ok t ucs (proj1 (clusters_ok t Ht))). Qed.
+Print Assumptions C41_split_unicode_concat.
+
+(* greedy clustering: whenever a multi-code-point cluster cl of the page is a prefix of the string (not led
+   by the e-ASCII NUL), the first piece is a cluster of the page that is a prefix as well and at least as long
+   as cl: no cluster of the table is shadowed by a sibling with the same base letter or by its base letter *)
+Theorem C41_split_unicode_greedy : forall t, In t all_codepages -> forall c0 rest cl,
+  c0 <> 0 -> In cl (t_clusters t) -> starts_with cl (c0 :: rest) = true ->
+  exists cl' tail, split_unicode t (c0 :: rest) = Ok (cl' :: tail)
+                   /\ In cl' (t_clusters t) /\ starts_with cl' (c0 :: rest) = true
+                   /\ (List.length cl <= List.length cl')%nat
+                   /\ concat (cl' :: tail) = c0 :: rest.
+Proof.
+  intros t Ht c0 rest cl Hc Hin Hs. destruct (clusters_ok t Ht) as [H1 H2].
+  exact (split_unicode_greedy t c0 rest cl H1 H2 Hc Hin Hs).
+Qed.
+Print Assumptions C41_split_unicode_greedy.
+
+(* non-vacuity: russup3 has the siblings a+grave (0430 0300) and a+acute (0430 0301) *)
+Example C41_clusters_nonvacuous :
+  let t := get_codepage "russup3" in
+  In t all_codepages /\ In [1072; 768] (t_clusters t) /\ In [1072; 769] (t_clusters t)
+  /\ split_unicode t [1072; 768; 1072; 769; 1072] = Ok [[1072; 768]; [1072; 769]; [1072]]
+  /\ unicode_to_bytes t Strict [1072; 768; 1072; 769; 1072] = Ok [133; 159; 221].
+Proof.
+  cbv zeta. split; [apply get_codepage_in; vm_compute; reflexivity|].
+  split; [apply mem_seq_In; vm_compute; reflexivity|].
+  split; [apply mem_seq_In; vm_compute; reflexivity|].
+  split; vm_compute; reflexivity.
+Qed.
+
 (* ---------------------------------------------------------------- streaming converter *)
 
 (* nothing lost, duplicated or reordered: emitted sequences ++ pending buffer = old buffer ++ consumed;
